@@ -128,58 +128,56 @@ theorem indexOf?_some_of_mem (l : List Seq) (x : Seq) (h : x ∈ l) : ∃ i, ind
   | some i => exact ⟨i, rfl⟩
 
 /-- `all_variants` visits the variants of a choice in an order that is a permutation of the
-    variants and starts with the current sub-sequence -/
-theorem variantsByDistance_spec (c : Choice) (s : Seq) (vs : List Seq)
-    (h : variantsByDistance c s = some vs) :
-    vs.Perm c.variants ∧ vs.head? = some (c.seg s) := by
-  simp only [variantsByDistance] at h
-  split at h
-  · simp at h
-  · rename_i cur hcur
-    simp only [Option.some.injEq] at h
-    subst h
-    have hperm := List.mergeSort_perm (sortSeqs c.variants).zipIdx (distLe cur)
-    constructor
-    · have := hperm.map (·.1)
-      rw [List.zipIdx_map_fst] at this
-      exact this.trans (sortSeqs_perm _)
-    · have hsorted := List.pairwise_mergeSort (le := distLe cur)
-        (fun a b c => distLe_trans cur a b c) (fun a b => distLe_total cur a b) (sortSeqs c.variants).zipIdx
-      have hget := indexOf?_spec _ _ _ hcur
-      have hmem : (c.seg s, cur) ∈ (sortSeqs c.variants).zipIdx.mergeSort (distLe cur) := by
-        rw [hperm.mem_iff]
-        rw [List.mem_iff_getElem?]
-        refine ⟨cur, ?_⟩
-        rw [List.getElem?_zipIdx, hget]; simp
-      cases hl : (sortSeqs c.variants).zipIdx.mergeSort (distLe cur) with
-      | nil => rw [hl] at hmem; simp at hmem
-      | cons e rest =>
-        rw [hl] at hmem hsorted
-        simp only [List.map_cons, List.head?_cons, Option.some.injEq]
-        rcases List.mem_cons.1 hmem with heq | hrest
-        · rw [← heq]
-        · have hle := (List.pairwise_cons.1 hsorted).1 _ hrest
-          simp only [distLe, distTo, Bool.or_eq_true, decide_eq_true_eq, Bool.and_eq_true, beq_iff_eq] at hle
-          have hd : distTo cur e.2 = 0 := by
-            simp only [distTo] at *
-            have h0 : (if cur ≥ cur then cur - cur else cur - cur) = 0 := by simp
-            rcases hle with h | ⟨h, _⟩ <;> simp at h <;> omega
-          have he2 : e.2 = cur := by
-            simp only [distTo] at hd
-            split at hd <;> omega
-          -- e ∈ zipIdx ⇒ e.1 = sorted[e.2]
-          have heIn : e ∈ (sortSeqs c.variants).zipIdx := by
-            rw [← hperm.mem_iff, hl]; simp
-          rw [List.mem_iff_getElem?] at heIn
-          obtain ⟨k, hk⟩ := heIn
-          rw [List.getElem?_zipIdx] at hk
-          simp only [Option.map_eq_some_iff, Nat.zero_add] at hk
-          obtain ⟨a, ha, rfl⟩ := hk
-          simp only at he2
-          subst he2
-          rw [hget] at ha
-          simpa using ha.symm
-
+    variants and, when the current sub-sequence is one of them, starts with it -/
+theorem variantsByDistance_spec (c : Choice) (s : Seq) :
+    (variantsByDistance c s).Perm c.variants ∧
+    (c.seg s ∈ c.variants → (variantsByDistance c s).head? = some (c.seg s)) := by
+  simp only [variantsByDistance]
+  generalize hcurd : (indexOf? (sortSeqs c.variants) (c.seg s)).getD 0 = cur
+  have hperm := List.mergeSort_perm (sortSeqs c.variants).zipIdx (distLe cur)
+  constructor
+  · have := hperm.map (·.1)
+    rw [List.zipIdx_map_fst] at this
+    exact this.trans (sortSeqs_perm _)
+  · intro hin
+    obtain ⟨cur', hcur⟩ := indexOf?_some_of_mem (sortSeqs c.variants) (c.seg s) ((sortSeqs_perm _).mem_iff.2 hin)
+    have hcc : cur' = cur := by rw [hcur] at hcurd; simpa using hcurd
+    subst hcc
+    have hsorted := List.pairwise_mergeSort (le := distLe cur')
+      (fun a b c => distLe_trans cur' a b c) (fun a b => distLe_total cur' a b) (sortSeqs c.variants).zipIdx
+    have hget := indexOf?_spec _ _ _ hcur
+    have hmem : (c.seg s, cur') ∈ (sortSeqs c.variants).zipIdx.mergeSort (distLe cur') := by
+      rw [hperm.mem_iff]
+      rw [List.mem_iff_getElem?]
+      refine ⟨cur', ?_⟩
+      rw [List.getElem?_zipIdx, hget]; simp
+    cases hl : (sortSeqs c.variants).zipIdx.mergeSort (distLe cur') with
+    | nil => rw [hl] at hmem; simp at hmem
+    | cons e rest =>
+      rw [hl] at hmem hsorted
+      simp only [List.map_cons, List.head?_cons, Option.some.injEq]
+      rcases List.mem_cons.1 hmem with heq | hrest
+      · rw [← heq]
+      · have hle := (List.pairwise_cons.1 hsorted).1 _ hrest
+        simp only [distLe, distTo, Bool.or_eq_true, decide_eq_true_eq, Bool.and_eq_true, beq_iff_eq] at hle
+        have hd : distTo cur' e.2 = 0 := by
+          simp only [distTo] at *
+          have h0 : (if cur' ≥ cur' then cur' - cur' else cur' - cur') = 0 := by simp
+          rcases hle with h | ⟨h, _⟩ <;> simp at h <;> omega
+        have he2 : e.2 = cur' := by
+          simp only [distTo] at hd
+          split at hd <;> omega
+        have heIn : e ∈ (sortSeqs c.variants).zipIdx := by
+          rw [← hperm.mem_iff, hl]; simp
+        rw [List.mem_iff_getElem?] at heIn
+        obtain ⟨k, hk⟩ := heIn
+        rw [List.getElem?_zipIdx] at hk
+        simp only [Option.map_eq_some_iff, Nat.zero_add] at hk
+        obtain ⟨a, ha, rfl⟩ := hk
+        simp only at he2
+        subst he2
+        rw [hget] at ha
+        simpa using ha.symm
 
 /-- the multi-choices fit a sequence of length `n`: increasing, pairwise disjoint segments,
     variants of the segment's length, no duplicate variant -/
@@ -346,7 +344,7 @@ theorem optAll_some {α : Type} (l : List (Option α)) (r : List α) :
 
 /-- the relation between the multi-choices and the slots that `all_variants` enumerates -/
 def SlotsOf (s : Seq) : List Choice → List (List (Nat × Seq)) → Prop :=
-  List.Forall₂ (fun c slot => ∃ ws : List Seq, ws.Perm c.variants ∧ ws.head? = some (c.seg s) ∧ slot = ws.map (fun v => (c.start, v)))
+  List.Forall₂ (fun c slot => ∃ ws : List Seq, ws.Perm c.variants ∧ (c.seg s ∈ c.variants → ws.head? = some (c.seg s)) ∧ slot = ws.map (fun v => (c.start, v)))
 
 theorem slots_assigns (s : Seq) (mc : List Choice) (slots : List (List (Nat × Seq))) (hs : SlotsOf s mc slots)
     (combo : List (Nat × Seq)) : List.Forall₂ (· ∈ ·) combo slots ↔ Assigns combo mc := by
@@ -391,21 +389,18 @@ theorem slots_nodup (s : Seq) (mc : List Choice) (slots : List (List (Nat × Seq
     · exact (hperm.nodup_iff.2 h4).map (fun a b hab => by simpa using hab)
     · exact ih h6 l hl
 
-theorem slots_heads (s : Seq) (mc : List Choice) (slots : List (List (Nat × Seq))) (hs : SlotsOf s mc slots) :
-    List.Forall₂ (fun h l => l.head? = some h) (mc.map (fun c => (c.start, c.seg s))) slots ∧
-    ∀ c ∈ mc, c.seg s ∈ c.variants := by
+theorem slots_heads (s : Seq) (mc : List Choice) (slots : List (List (Nat × Seq))) (hs : SlotsOf s mc slots)
+    (hin : ∀ c ∈ mc, c.seg s ∈ c.variants) :
+    List.Forall₂ (fun h l => l.head? = some h) (mc.map (fun c => (c.start, c.seg s))) slots := by
   induction hs with
-  | nil => exact ⟨List.Forall₂.nil, by simp⟩
+  | nil => exact List.Forall₂.nil
   | @cons c slot mc slots hc hrest ih =>
     obtain ⟨ws, hperm, hhead, rfl⟩ := hc
-    refine ⟨List.Forall₂.cons ?_ ih.1, ?_⟩
-    · cases ws with
-      | nil => simp at hhead
-      | cons w ws => simp at hhead ⊢; exact hhead
-    · intro d hd
-      rcases List.mem_cons.1 hd with rfl | hd
-      · exact hperm.mem_iff.1 (List.mem_of_mem_head? hhead)
-      · exact ih.2 d hd
+    have hh := hhead (hin c (by simp))
+    refine List.Forall₂.cons ?_ (ih (fun d hd => hin d (by simp [hd])))
+    cases ws with
+    | nil => simp at hh
+    | cons w ws => simp at hh ⊢; exact hh
 
 theorem allVariants_slots (sp : Space) (s : Seq) (vs : List Seq) (h : sp.allVariants s = .ok vs) :
     ∃ slots, SlotsOf s sp.multichoices slots ∧ vs = (cartesian slots).map (applyMuts s) := by
@@ -424,19 +419,13 @@ theorem allVariants_slots (sp : Space) (s : Seq) (vs : List Seq) (h : sp.allVari
     simp only [Except.ok.injEq] at h
     refine ⟨[], by rw [hmc]; exact List.Forall₂.nil, ?_⟩
     simp [cartesian, applyMuts, ← h]
-  · split at h
-    · simp at h
-    · rename_i slots hslots
-      simp only [Except.ok.injEq] at h
-      refine ⟨slots, ?_, h.symm⟩
-      rw [optAll_some] at hslots
-      rw [List.forall₂_map_left_iff] at hslots
-      refine hslots.imp ?_
-      intro c slot hcs
-      simp only [Option.map_eq_some_iff] at hcs
-      obtain ⟨ws, hws, rfl⟩ := hcs
-      have := variantsByDistance_spec c s ws hws
-      exact ⟨ws, this.1, this.2, rfl⟩
+  · simp only [Except.ok.injEq] at h
+    refine ⟨_, ?_, h.symm⟩
+    rw [SlotsOf, List.forall₂_map_right_iff]
+    refine List.forall₂_same.2 ?_
+    intro c _
+    have := variantsByDistance_spec c s
+    exact ⟨variantsByDistance c s, this.1, this.2, rfl⟩
 
 theorem readback_mem (u : Seq) (combo : List (Nat × Seq)) (mc : List Choice) (ha : Assigns combo mc)
     (r2 : List.Forall₂ (fun m c => c.seg u = m.2) combo mc) : ∀ c ∈ mc, c.seg u ∈ c.variants := by
@@ -461,7 +450,7 @@ theorem assigns_of_seg (t : Seq) (mc : List Choice) (h2 : ∀ c ∈ mc, c.seg t 
 theorem allVariants_enumerates (sp : Space) (s : Seq) (vs : List Seq)
     (hwf : MCFits s.length sp.multichoices) (h : sp.allVariants s = .ok vs) :
     vs.length = (sp.multichoices.map (·.variants.length)).foldr (· * ·) 1 ∧ vs.Nodup ∧
-    vs.head? = some s ∧
+    ((∀ c ∈ sp.multichoices, c.seg s ∈ c.variants) → vs.head? = some s) ∧
     ∀ t, t ∈ vs ↔ (t.length = s.length ∧ (∀ c ∈ sp.multichoices, c.seg t ∈ c.variants) ∧
       ∀ i, (∀ c ∈ sp.multichoices, ¬ (c.start ≤ i ∧ i < c.stop)) → t[i]? = s[i]?) := by
   obtain ⟨slots, hslots, rfl⟩ := allVariants_slots sp s vs h
@@ -473,10 +462,11 @@ theorem allVariants_enumerates (sp : Space) (s : Seq) (vs : List Seq)
       rw [Cart.mem_cartesian, hass] at ha hb
       exact applyMuts_injective s _ hwf a b ha hb hab
     · exact Cart.nodup_cartesian slots (slots_nodup s _ slots hslots _ hwf)
-  · have hh := slots_heads s _ slots hslots
-    rw [List.head?_map, Cart.head_cartesian slots _ hh.1]
+  · intro hin
+    have hh := slots_heads s _ slots hslots hin
+    rw [List.head?_map, Cart.head_cartesian slots _ hh]
     simp only [Option.map_some, Option.some.injEq]
-    exact applyMuts_seg_id s s _ hwf rfl hh.2 (fun _ _ => rfl)
+    exact applyMuts_seg_id s s _ hwf rfl hin (fun _ _ => rfl)
   · intro t
     simp only [List.mem_map]
     constructor
